@@ -137,7 +137,9 @@ Fixpoint create_loop_gen chk (pairs : list (Z * Z)) (rc memLen off sum : Z) (m :
     let sum' := w32 (sum + pct) in
     if c_percentSumMax <? sum' then Err 4 else
     let stride := w32 (size + c_bufferHeaderSize) in
-    if stride =? 0 then Panic 4 else           (* integer divide by zero *)
+    (* since /repo db4e530: `if pair.Size+bufferHeaderSize < bufferHeaderSize` rejects a wrapped stride *)
+    if stride <? c_bufferHeaderSize then Err 6 else
+    if stride =? 0 then Panic 4 else           (* integer divide by zero (unreachable behind the check) *)
     let num := w32 (w64 (rc * pct) / c_percentDivisor) / stride in
     let need := list_mem_size num size in
     match create_fbl_gen chk num size memLen off m with
